@@ -55,9 +55,13 @@ var props = []propCfg{
 	},
 	{
 		ID: "C19", World: "memory", Pkg: "worlds/memory", Test: "TestMemory", Level: "exploration",
-		Variants: []variant{{Name: "plain", Quick: 10000, Thorough: 60000, Workers: 16, QuickS: 1500, ThoroughS: 4 * 3600}},
-		Rule:     "one run = one drawn entry (a catalogue key type x variant, a stub legacy key type x prefix, or a subtle constructor), one drawn history of up to 10 steps (accessor sweep found by reflection, public constructors fed from arena buffers, serialize/parse, handles through manager / MemReaderWriter / binary / JSON / encrypted readers, exports, factory primitives and their operations on arena-backed inputs) and one drawn fault plan (which earlier input or returned value is flipped, after which step, which byte, whole value or not, data or spare capacity). The history is executed in a pristine and a faulted world with identical RNG streams. Non-trivial = at least one flip fired; distinct = signature (class/key type/variant, set of step groups, set of flip kinds fired, outcome).",
-		Assume:   []string{"Go's collector does not move heap objects and every compared address range is kept referenced", "the simrng and cryptotest seams reproduce all randomness; a non-reproducible operation is detected, counted and compared semantically", "key.Equal plus accessor values distinguish key material", "stub key-manager primitives are themselves copy-clean", "KMS envelope AEAD and the hybrid/subtle curve helpers are not reached (listed in the byte-api set of the evidence)"},
+		Variants: []variant{
+			{Name: "plain", Quick: 10000, Thorough: 60000, Workers: 10, QuickS: 1500, ThoroughS: 4 * 3600},
+			// same world built through the yield-point overlay: caller buffers are also checked before every statement tink executes
+			{Name: "watch", Instr: true, Quick: 5000, Thorough: 30000, Workers: 6, QuickS: 1500, ThoroughS: 4 * 3600},
+		},
+		Rule:   "one run = one drawn entry (a catalogue key type x variant, a stub legacy key type x prefix, or a subtle constructor), one drawn history of up to 10 steps (accessor sweep found by reflection, public constructors fed from arena buffers, serialize/parse, handles through manager / MemReaderWriter / binary / JSON / encrypted readers, exports, factory primitives and their operations on arena-backed inputs) and one drawn fault plan (which earlier input or returned value is flipped, after which step, which byte, whole value or not, data or spare capacity). The history is executed in a pristine and a faulted world with identical RNG streams. Non-trivial = at least one flip fired; distinct = signature (class/key type/variant, set of step groups, set of flip kinds fired, outcome).",
+		Assume: []string{"Go's collector does not move heap objects and every compared address range is kept referenced", "the simrng and cryptotest seams reproduce all randomness; a non-reproducible operation is detected, counted and compared semantically", "key.Equal plus accessor values distinguish key material", "stub key-manager primitives are themselves copy-clean", "KMS envelope AEAD and the hybrid/subtle curve helpers are not reached (listed in the byte-api set of the evidence)"},
 	},
 	{
 		ID: "C20", World: "entropy", Pkg: "worlds/entropy", Test: "TestEntropy", Level: "exploration",
